@@ -336,3 +336,21 @@ Proof.
   intros WF ND. unfold resolve_local. destruct (isfile fs (strip_scheme e)). repeat constructor. intros [].
   destruct (plan (strip_scheme e)) as [e2 R]. apply nodup_filter. apply walk_nodup; auto.
 Qed.
+
+(* ---------- end to end: File.resolve_filenames on a comma-separated expression *)
+Theorem resolve_all_exact fs items s f :
+  wf_fs fs = true -> items <> [] -> Forall (fun it => forall c, In c it -> c <> c_comma) items ->
+  Forall (fun it => get_fs (strip it) = cls_local) items ->
+  In f (files fs) -> cname fs s f ->
+  exists l, resolve_all fs (join c_comma items) = Names l /\
+    (In s l <-> exists it, In it items /\
+                  if isfile fs (strip_scheme (strip it)) then s = strip_scheme (strip it)
+                  else accepts (eff_expr (strip it)) s = true).
+Proof.
+  intros WF NE NC LOC If C. destruct (comma_union_in fs items s NE NC LOC) as (l & E & IFF).
+  exists l. split; auto. rewrite IFF. split; intros (it & Hit & H); exists it; split; auto.
+  - apply resolve_sound in H; tauto.
+  - destruct (isfile fs (strip_scheme (strip it))) eqn:I.
+    + rewrite resolve_file_shortcut by auto. left. auto.
+    + eapply resolve_complete; eauto.
+Qed.
